@@ -41,29 +41,40 @@ Print Assumptions C30_hd_ok_spec.
 
 (* HEADLINE.  For every negotiated limit L (0..2^32-1) and EVERY sequence of operations
    WriteField(f) / SetMaxDynamicTableSize(v) / end-of-block (fields: any byte strings shorter than 2^61,
-   any never-index flag; v any non-negative number), the model encoder never panics and every block it emits
+   any never-index flag; v any non-negative number; size changes are applied between header blocks, i.e. before
+   the first field of a block, as RFC 7541 4.2 demands and the HTTP/2 layer does - wf_ops_b), the model encoder never panics and every block it emits
    is decoded by the model decoder (same settings, fed block by block) without error into exactly the fields
    written into that block - names, values and never-index flags - and after every block both dynamic tables
    satisfy 0 <= size <= maxSize and size <= L (blocks_ok is the executable statement of all this; it is also
    what prop_C30 evaluates on the real implementation's output).  The proof is a simulation invariant
    (sim: decoder table = encoder table modulo the size updates still pending in the encoder). *)
 Theorem C30_sequence_roundtrip : forall hd L ops,
-  hd_ok hd -> 0 <= L <= uint32_max -> Forall wf_op ops ->
+  hd_ok hd -> 0 <= L <= uint32_max -> wf_ops_b ops false = true ->
   exists out, run_C30_with hd L ops = Some out /\ blocks_ok L (expected_blocks ops []) out = true.
 Proof. exact sequence_roundtrip_closed. Qed.
 Print Assumptions C30_sequence_roundtrip.
 
 (* the same with the RFC bit-level Huffman decoder plugged in: no hypothesis left *)
 Theorem C30_sequence_roundtrip_rfc_huffman : forall L ops,
-  0 <= L <= uint32_max -> Forall wf_op ops ->
+  0 <= L <= uint32_max -> wf_ops_b ops false = true ->
   exists out, run_C30_with huff_decode_spec L ops = Some out /\ blocks_ok L (expected_blocks ops []) out = true.
 Proof. exact (fun L ops => sequence_roundtrip_closed huff_decode_spec L ops hd_ok_spec). Qed.
 Print Assumptions C30_sequence_roundtrip_rfc_huffman.
 
+(* CENTRAL THEOREM: on every well-formed wire input (wf_C30: limit in uint32, bytes in range, size changes only at
+   block starts) the model's own output satisfies the executable property the harness evaluates on the
+   implementation's observation.  (run_C30 decodes Huffman strings with the RFC bit-level decoder; agree_C30
+   additionally requires the byte-trie transcription to produce the same observation.) *)
+Theorem C30_central : forall i, wf_C30 i = true -> kf_C30 i = 0 -> prop_C30 i (run_C30 i) = true.
+Proof. exact C30_central_lemma. Qed.
+Print Assumptions C30_central.
+Example C30_central_nonvacuous : wf_C30 ex_input = true /\ agree_C30 ex_input (run_C30 ex_input) = true.
+Proof. exact ex_input_wf. Qed.
+
 (* Non-vacuity: a concrete two-block history with repeated fields, a sensitive field, eviction by a small
    limit (L = 100) and size updates 50, 0, 4096; it is well-formed, and run through the TRIE decoder model
    (huff_decode, the one tied to the Go code) it satisfies the same predicate. *)
-Example C30_example_wf : Forall wf_op ex_ops.
+Example C30_example_wf : wf_ops_b ex_ops false = true.
 Proof. exact ex_ops_wf. Qed.
 Example C30_example_runs :
   match run_C30_with huff_decode 100 ex_ops with
